@@ -99,6 +99,9 @@ def run_for(prop: str, seed: int = 0) -> Dict[str, Any]:
                 res["benign"] += 1
                 if not fired and pr["status"] == "ok":
                     res["silent"] += 1
+                elif not fired and prop in v.get("refuse", []) and pr["status"].startswith("error: AnalysisError"):
+                    # documented limit (DESIGN 9.5): the rule says it cannot read this shape instead of judging it
+                    res["refused"] = res.get("refused", 0) + 1
                 else:
                     res["mismatches"].append(f"benign variant {v['name']} -> {pr['status']} {pr['fired']}")
             else:
@@ -144,10 +147,12 @@ def main() -> int:
             exp = set(v.get("expect", []))
             if v["kind"] == "benign":
                 verdict = "ok" if not fired and not errs else "FALSE-ALARM"
+                if not fired and errs and set(errs) <= set(v.get("refuse", [])) and all(e.startswith("error: AnalysisError") for e in errs.values()):
+                    verdict = "refused"
             else:
                 got = set(fired)
                 verdict = "ok" if exp and exp <= got else ("caught-elsewhere" if got else "MISSED")
-            if verdict not in ("ok",):
+            if verdict not in ("ok", "refused"):
                 bad += 1
             print(f"{v['name']:28s} {v['kind']:7s} {verdict:16s} expect={sorted(exp)} fired={fired} {('errors=' + str(errs)) if errs else ''}")
     print(f"{len(vs)} variants x {len(props)} checks in {time.time() - t0:.1f}s; {bad} need attention")
